@@ -257,7 +257,8 @@ class Book:
             self.compare_range(self.factory(), sheet, text, c1, r1, c2, r2, tag, first=True)
         # containers of addresses
         k = min(len(self.addresses), 4)
-        for tag, make in (('list', list), ('tuple', tuple), ('generator', lambda x: (a for a in x))):
+        for tag, make in (('list', list), ('tuple', tuple), ('generator', lambda x: (a for a in x)),
+                          ('generator', iter), ('generator', lambda x: map(str, x))):
             pick = [rng.choice(self.addresses) for _ in range(k)]
             for model in (comp, self.factory()):
                 got = wb.outcome(model.evaluate, make(pick))
